@@ -512,3 +512,51 @@ func ruleEllipsisGuarded(c *Ctx, r *Report) {
 		r.undecided(rule, "scan/ellipsis", "-", desc, "no write of the ellipsis atom found")
 	}
 }
+
+// ---------------------------------------------------------------------------
+// C06: R-ATOM-ZERO-IS-AN-ATOM — added with fix F57.  A one-character atom is represented by its rune, so
+// Atom(0) is the atom '\x0\' - a name like any other, which op/3 accepts.  "There is no operator here" is the
+// zero value of the whole operator struct; a test of an operator's NAME against 0 takes the NUL operator for no
+// operator (the blank before an opening parenthesis is left out and '\x0\'((a,b)) reads back with two
+// arguments).  Checked: no comparison of the field operator.name with the constant 0 anywhere in the library.
+func ruleAtomZeroIsAnAtom(c *Ctx, r *Report) {
+	const rule = "R-ATOM-ZERO-IS-AN-ATOM"
+	desc := "the absence of an operator is never decided by comparing its name with 0"
+	n, bad := 0, 0
+	for _, fn := range c.LibFuncs() {
+		eachInstr(fn, func(in ssa.Instruction) {
+			bo, ok := in.(*ssa.BinOp)
+			if !ok {
+				return
+			}
+			x, _, k, ok := cmpConst(bo)
+			if !ok {
+				return
+			}
+			isName := false
+			switch y := x.(type) {
+			case *ssa.UnOp:
+				if fa, ok := y.X.(*ssa.FieldAddr); ok && y.Op == token.MUL && fieldName(fa) == "name" && isEngNamed(deref(fa.X.Type()), "operator") {
+					isName = true
+				}
+			case *ssa.Field:
+				if isEngNamed(y.X.Type(), "operator") {
+					if st, ok := y.X.Type().Underlying().(*types.Struct); ok && st.Field(y.Field).Name() == "name" {
+						isName = true
+					}
+				}
+			}
+			if !isName {
+				return
+			}
+			n++
+			if k == 0 {
+				bad++
+				r.bad(rule, fmt.Sprintf("%s/operator.name-vs-0", fname(fn)), c.at(in), desc, "operator.name is compared with 0: the operator named '\\x0\\' counts as no operator")
+			}
+		})
+	}
+	if bad == 0 {
+		r.ok(rule, "scan/operator.name", "-", desc, fmt.Sprintf("%d comparisons of operator.name with a constant examined; none with 0", n), false)
+	}
+}
